@@ -119,6 +119,9 @@ def desc_compatible(t, v, world):
         c = Fraction(v[1])
         if k == "int" and c.denominator != 1:
             return False
+        if k == "int" and v[0] == "real" and len(v) > 2 and v[2] == "node":
+            # an explicit REAL_CONSTANT node (not a python number, which is promoted to Int): its type is real
+            return False
         if t[1] is not None and c < Fraction(t[1]):
             return False
         if t[2] is not None and c > Fraction(t[2]):
@@ -599,6 +602,8 @@ def compatible(ftype, v):
         c = Fraction(v.constant_value())
         if fk == "int" and c.denominator != 1:
             return f"non-integral constant {v} stored for {ftype}"
+        if fk == "int" and v.is_real_constant():
+            return f"real constant node {v} stored for {ftype}"
         if ftype.lower_bound is not None and c < ftype.lower_bound:
             return f"constant {v} below the lower bound of {ftype}"
         if ftype.upper_bound is not None and c > ftype.upper_bound:
@@ -798,6 +803,8 @@ class ModelHist(Engine):
                 c.append(["int", int(t[2]) + 4])
             if t[1] is not None:
                 c.append(["int", int(t[1]) - 3])
+            # an integral value inside the bounds, handed over as an explicit Real constant node
+            c.append(["real", str((t[1] if t[1] is not None else 0) + 1), "node"])
             return r.choice(c), "value outside an int type"
         if k == "real":
             c = [["bool", False], ["o", objs[0][0]]]
